@@ -9,6 +9,15 @@ RT = core.materialize(os.path.join(core.VERIF, "suites", "rt"), "rt")
 _BIN = {}
 
 
+class FrameworkRejected(Exception):
+    """The framework crate itself does not compile under an explored subset of its cargo features."""
+
+    def __init__(self, diags, feats):
+        Exception.__init__(self, diags[0]["message"] if diags else "rejected")
+        self.diags = diags
+        self.feats = feats
+
+
 class SuiteRejected(Exception):
     """The suite's own (static, valid) sources no longer compile against the tree: the API the property is about broke."""
 
@@ -41,6 +50,7 @@ def build(only=None, feats=None):
     exe = None
     errs = []
     own = []
+    fw_errs = []
     with core.BuildLock("e2"):
         p, dt = core.run(["cargo", "build", "--offline", "--message-format=json"] + args, cwd=RT, env=env)
         for line in p.stdout.splitlines():
@@ -52,6 +62,11 @@ def build(only=None, feats=None):
                 exe = m["executable"]
             if m.get("reason") == "compiler-message" and m["message"].get("level") == "error":
                 errs.append(m["message"].get("rendered", ""))
+                if m.get("target", {}).get("name") == "sylvia":
+                    sp = [x for x in m["message"].get("spans", []) if x.get("is_primary")]
+                    fw_errs.append({"message": m["message"].get("message", ""), "code": (m["message"].get("code") or {}).get("code"),
+                                    "file": sp[0]["file_name"] if sp else None, "line": sp[0]["line_start"] if sp else None,
+                                    "rendered": m["message"].get("rendered", "")[:1500]})
                 if m.get("target", {}).get("name") == "rt":
                     sp = [x for x in m["message"].get("spans", []) if x.get("is_primary")]
                     own.append({"message": m["message"].get("message", ""), "code": (m["message"].get("code") or {}).get("code"),
@@ -69,6 +84,9 @@ def build(only=None, feats=None):
         own = [d for d in own if d["message"] and not d["message"].startswith("aborting due to")]
         if own:
             raise SuiteRejected(own)
+        fw_errs = [d for d in fw_errs if d["message"] and not d["message"].startswith("aborting due to")]
+        if fw_errs and feats is not None and set(feats) != set(F_ALL):
+            raise FrameworkRejected(fw_errs, feats)
         raise core.MachineryError("runtime suite does not build against the current tree:\n%s\n%s" % ("\n".join(errs)[-5000:], p.stderr[-2000:]))
     core.log("[e4] suites built in %.1fs (%s)" % (dt, key))
     _BIN[key] = exe
@@ -88,6 +106,9 @@ def run_suite(name, tier, timeout=3600, feats=None):
     core.log("[e4] suite %s %s ran in %.1fs" % (name, tier, dt))
     return out
 
+
+# sources of the framework whose failure to compile under a feature subset is the suite's property failing there
+SUITE_FRAMEWORK_FILES = {"intoresp": ("into_response.rs",)}
 
 SUITE_PROPERTY_API = {
     "merge": "sylvia::utils::assert_no_intersection",
@@ -111,6 +132,18 @@ def run_suite_into(res, name, tier, timeout=3600, feats=None):
     """run_suite, with a rejection of the suite's own valid sources by the compiler reported as violations of res's property."""
     try:
         return run_suite(name, tier, timeout=timeout, feats=feats)
+    except FrameworkRejected as e:
+        mine = [d for d in e.diags if d["file"] and d["file"].endswith(SUITE_FRAMEWORK_FILES.get(name, ()))] if SUITE_FRAMEWORK_FILES.get(name) else []
+        if not mine:
+            raise core.MachineryError("the framework does not build with features %s: %s" % (sorted(e.feats), e.diags[0]["rendered"]))
+        fl = "+".join(f[2:] for f in e.feats) or "none"
+        d = mine[0]
+        res.violation({"kind": "compile", "cls": "framework_rejected_under_features", "suite": name, "features": fl, "code": d["code"], "file": d["file"], "line": d["line"], "rendered": d["rendered"],
+                       "what": "built with the feature subset {%s} the framework itself does not compile, in the code this property is about: %s %s at %s:%s" % (
+                           fl, d["code"], d["message"][:300], d["file"], d["line"])})
+        res.add(states=1, transitions=1, traces=1, evaluations=1)
+        res.mark_nontrivial("framework_rejected:" + fl)
+        return None
     except SuiteRejected as e:
         seen = set()
         for d in e.diags:
